@@ -107,10 +107,11 @@ def harness(sym):
     if not edited:
         b = _run(sym, snippet, None, window, None, durations)
         if not a["method_error"] and not b["method_error"]:
-            sym.check(a["method_state"] == b["method_state"], "injection-changed-method-state",
+            both_blocks = "|injected-block-beside-method-block" if (name == "block" and sym.shard.get("method") == "block") else ""
+            sym.check(a["method_state"] == b["method_state"], "injection-changed-method-state" + both_blocks,
                       lambda: f"{desc()}: method state with injection {a['method_state']}, without {b['method_state']}")
             own = [m for m in a["marks"] if m.startswith("M")]
-            sym.check(own == [m for m in b["marks"] if m.startswith("M")], "injection-changed-method-effects",
+            sym.check(own == [m for m in b["marks"] if m.startswith("M")], "injection-changed-method-effects" + both_blocks,
                       lambda: f"{desc()}: method marks with injection {own}, without {b['marks']}")
 
 
